@@ -61,7 +61,13 @@ def fault_stage(run, pid, tier, seed, results, judge, identity, extra_identities
     # a third each: reads (a reconciler may go on with a stale or missing picture), dry runs (preflight of rollout
     # and teardown), writes
     reads = [c for c in cands if c[3] == "read"][: n // 3]
-    dry = [c for c in cands if c[3] == "dry"][: n // 3]
+    def going(sc):
+        t = [s_ for s_ in sc["sets"] if s_["name"] == sc["target"]["name"] and s_["kind"] == sc["target"]["kind"]]
+        return bool(t) and (t[0]["deleting"] or t[0]["life"] == 2)
+    # dry runs of teardown passes first: teardown treats a preflight VIOLATION as "nothing to clean up", so what the
+    # checker makes of a failed dry run decides whether an object is skipped
+    dry = [c for c in cands if c[3] == "dry" and going(c[0])][: n // 6]
+    dry += [c for c in cands if c[3] == "dry" and not going(c[0])][: n // 3 - len(dry)]
     writes = dry + [c for c in cands if c[3] == "write"][: n - len(reads) - len(dry)]
     scs = [dict(sc, faults={str(i): kind}) for sc, i, kind, _ in reads + writes]
     outs = vlib.run_harness("objectset", scs)
